@@ -21,6 +21,7 @@ RULE = ("cases: an object of every exported class (Acl with group_by / members /
         "snapshot (text + data) is unchanged by the mutation; uuid and note of the container, of every Ace / "
         "Remark / member item not replaced by a split survive the transformations. Non-trivial: the mutation "
         "changed the mutated side, or >= 2 transformations were chained; distinct by canonical case")
+RULE += ". Directed classes added after the seeded-change rounds: remark text through text= / the text setter; numbered NX-OS groups reordered before the copy; explicit blocks with their own prefix; resequence refused for overflow and 'asa' as a target in the identity chains"
 ASSUMPTIONS = ["Wildcard has no __eq__ and is compared by text + data only",
                "AceGroup identity is not claimed across operations that regroup (ACL with group_by)",
                "sub-objects of an Ace (addresses, ports, protocol, option) are rebuilt by design and not claimed"]
